@@ -337,8 +337,11 @@ def c04(chk):
         finally:
             shutil.rmtree(wd, ignore_errors=True)
     os.environ.pop("VERIF_CRASH_ARGS", None)
+    # a commit of more keys than any batch size one might think of, killed before each of its persistent mutations (Bulk.tla)
+    spec_stage(chk, "crash_large_commit", "Bulk.tla", dict(Ns={1001} if quick else {1, 999, 1000, 1001, 2500, 5000}, Modes={"commitcrash"}, ChunkSize=1000, Variant="ascoded"),
+               view=None, emit="Emit", invariants=("XReclaimed",), properties=(), exe="crash", fs=False, chunk=1)
     chk.assumptions += ["kill -9 semantics: the page cache survives; power loss and fsync are outside the property's quantifier",
-                        "Badger's own commit is atomic; the client waits for the cleaner between two calls, as the specification does"]
+                        "Badger's own commit is atomic; between two calls the client waits for the cleaner, as the specification does, or is killed right after the acknowledgement"]
 
 
 def c05(chk):
